@@ -22,11 +22,11 @@ import (
 func init() {
 	fw.Register(&fw.Prop{
 		ID: "C17", Level: "exploration",
-		Rule: "one case = one generated session of a statically scoped program: 1-4 files minified together and loaded in order, 1-4 packages (in-package/export/use-package/qualified names), every binding form (let let* flet labels lambda defun defmacro macrolet dotimes), shadowing of locals/parameters/globals/builtins, closures and set!, labels mutual recursion, defmacro quasiquote templates naming globals, quoted data and identifiers spelled like renamed names or like minifier output (x1 x2 ...), excluded names, keyword arguments only when parameters are never renamed; each session is judged under the command defaults plus up to three of {rename-exports, rename-params, exclusions}; the files are named plainly (f1.lisp ...) in a third of the sessions and otherwise placed in directories (one level, nested, shared), with equal base names in different directories, absolute / relative / mixed spellings, ./ and ../ prefixes, spaces, dots, non-ASCII letters and | : \\ # in names, missing or doubled extensions; a third of the multi-file cases hand the files to Minify in another order than the load order (reversed, sorted by path, rotated); a later file may start with a copy under another package name, laid out alike, of the segment that opens an earlier file (equal definitions at equal line:column in two files). A (session, configuration) pair is DISTINCT by (configuration, files, packages, outcome class of the original run, set of construct tags actually emitted) and counts only when the minifier reported at least one rename (otherwise trivial).",
+		Rule: "one case = one generated session of a statically scoped program: 1-4 files minified together and loaded in order, 1-4 packages (in-package/export/use-package/qualified names), every binding form (let let* flet labels lambda defun defmacro macrolet dotimes), shadowing of locals/parameters/globals/builtins, closures and set!, labels mutual recursion, defmacro quasiquote templates naming globals, quoted data and identifiers spelled like renamed names or like minifier output (x1 x2 ...), excluded names, keyword arguments only when parameters are never renamed; each session is judged under the command defaults plus up to three of {rename-exports, rename-params, exclusions}; the files are named plainly (f1.lisp ...) in a third of the sessions and otherwise placed in directories (one level, nested, shared), with equal base names in different directories, absolute / relative / mixed spellings, ./ and ../ prefixes, spaces, dots, non-ASCII letters and | : \\ # in names, missing or doubled extensions; a third of the multi-file cases hand the files to Minify in another order than the load order (reversed, sorted by path, rotated); a later file may start with a copy under another package name, laid out alike, of the segment that opens an earlier file (equal definitions at equal line:column in two files); about a quarter of the sessions contain one or two groups 'template names resolved at the expansion site': a defmacro of the using package or of a library package (exported and imported, or called as lib:macro; written in the file of the call or in an earlier one) whose template names a helper function and a global variable that only the USING package defines (in the same or another file), in call-head, argument, let/let* initialiser inside bracket or parenthesised binding lists, flet/labels binding bodies, lambda bodies, function-value arguments of funcall/apply/map, bracketed cond clauses, thread-first steps, dotimes bodies and the binder-macro shape (m name expr body...). A (session, configuration) pair is DISTINCT by (configuration, files, packages, outcome class of the original run, set of construct tags actually emitted) and counts only when the minifier reported at least one rename (otherwise trivial).",
 		Assumptions: []string{
 			"the real evaluator (a FRESH runtime per run, files loaded in order with LoadString, core language without the stdlib packages) is the reference for 'meaning'; the check compares the original and the minified run and does not model scoping itself",
 			"transcripts compare the value (function values only as 'is a function'), the Runtime.Stderr bytes (skipped when the original printed a function value) and the error condition name; error messages and stack traces are not compared because they legitimately spell renamed symbols",
-			"generated macros are hygienic by construction (template binders are never used at call sites; a macro is called only where none of its template's free names is locally rebound and only from a package in which those names denote the same globals); no symbol is computed at run time; no defun/defmacro/set occurs inside a function body; no name changes what it resolves to while the session loads",
+			"generated macros are hygienic by construction (template binders are never used at call sites; a macro is called only where none of its template's free names is locally rebound and only from a package in which those names denote the same globals - for the expansion-site family: only from the one package that defines them, no other package of the session defines them, and they are never passed to funcall as quoted symbols); no symbol is computed at run time; no defun/defmacro/set occurs inside a function body; no name changes what it resolves to while the session loads",
 			"the minifier is configured exactly as cmd/minify.go configures it (compact, comments stripped); PreserveParams=false is used only for sessions that pass no keyword argument",
 			"interpretations that decide whether some findings count: (a) a quasiquote form evaluated as DATA is quoted data whose value must be preserved; (b) a defun inside a top-level let/progn is not 'inside a function body'; (c) defining the same global twice (same package) is one statically resolved binding assigned twice; (d) an unrenamed token that merely is spelled like an assigned name is counted, not judged (the statement speaks of the renames the map reports)",
 			"the path strings given to Minify and the order of the inputs are not part of the program: the twin runs load the sources with LoadString under the same names and open no file, so every naming and every input order of the same sources must yield programs that behave alike; two inputs always have different cleaned paths; the input order is left equal to the load order when some name is defined in two files of one package (only the input order can then tell which definition is the later one)",
@@ -117,7 +117,8 @@ func c17ProbeBudget(tier string) int {
 
 var c17PreTags = []string{"use-package", "export", "in-package", "macrolet", "macrolet-template-free-name", "defmacro",
 	"quasiquote-as-data", "redefined-global", "defun-inside-toplevel-let", "template-name-equals-param",
-	"qualified-call", "qualified-var", "same-name-other-pkg", "template-global-fn", "template-global-var"}
+	"qualified-call", "qualified-var", "same-name-other-pkg", "template-global-fn", "template-global-var",
+	"site-macro", "site-macro:imported", "site-macro:qualified", "site-macro:macro-and-helpers-in-different-files"}
 
 // c17PreSignature is a cheap description of a failing case, used only to
 // avoid shrinking the same failure hundreds of times.
@@ -428,6 +429,11 @@ func c17ReportProbes(w *fw.W, st *c17State) {
 		w.Count("known_defect_probes_run", 1)
 		if r.Finding == nil {
 			w.SetAdd("known_defect_probes_passing", r.Probe.key())
+			continue
+		}
+		if c17QuietDefects[r.Probe.Defect] {
+			w.Count("quiet_probes_failing_not_reported", 1)
+			w.SetAdd("quiet_probes_failing_not_reported", r.Probe.key())
 			continue
 		}
 		w.Count("known_defect_probes_failing", 1)
